@@ -87,6 +87,9 @@ SPIF_TYPE(strclass) SPIF_STRCLASS_VAR(str) = &s_class;
 
 static const size_t buff_inc = 4096;
 
+/* The text of a string object.  An empty object may have no buffer at all. */
+#define STR_TEXT(o)  ((const char *) ((((o) != NULL) && ((o)->s != NULL)) ? ((o)->s) : ((spif_charptr_t) "")))
+
 spif_str_t
 spif_str_new(void)
 {
@@ -352,7 +355,7 @@ spif_str_dup(spif_str_t self)
     ASSERT_RVAL(!SPIF_STR_ISNULL(self), (spif_str_t) NULL);
     tmp = SPIF_ALLOC(str);
     memcpy(tmp, self, SPIF_SIZEOF_TYPE(str));
-    tmp->s = (spif_charptr_t) STRDUP((const char *) SPIF_STR_STR(self));
+    tmp->s = (spif_charptr_t) STRDUP((const char *) STR_TEXT(self));
     tmp->len = self->len;
     tmp->size = self->size;
     return tmp;
@@ -373,7 +376,7 @@ spif_str_append(spif_str_t self, spif_str_t other)
     if (other->size && other->len) {
         self->size += other->size - 1;
         self->s = (spif_charptr_t) REALLOC(self->s, self->size);
-        memcpy(self->s + self->len, SPIF_STR_STR(other), other->len + 1);
+        memcpy(self->s + self->len, STR_TEXT(other), other->len + 1);
         self->len += other->len;
     }
     return TRUE;
@@ -416,7 +419,7 @@ spif_str_casecmp(spif_str_t self, spif_str_t other)
     int c;
 
     SPIF_OBJ_COMP_CHECK_NULL(self, other);
-    c = strcasecmp((char *) SPIF_STR_STR(self), (char *) SPIF_STR_STR(other));
+    c = strcasecmp((char *) STR_TEXT(self), (char *) STR_TEXT(other));
     return SPIF_CMP_FROM_INT(c);
 }
 
@@ -426,7 +429,7 @@ spif_str_casecmp_with_ptr(spif_str_t self, spif_charptr_t other)
     int c;
 
     SPIF_OBJ_COMP_CHECK_NULL(self, other);
-    c = strcasecmp((char *) SPIF_STR_STR(self), (char *) other);
+    c = strcasecmp((char *) STR_TEXT(self), (char *) other);
     return SPIF_CMP_FROM_INT(c);
 }
 
@@ -445,7 +448,7 @@ spif_str_cmp(spif_str_t self, spif_str_t other)
     int c;
 
     SPIF_OBJ_COMP_CHECK_NULL(self, other);
-    c = strcmp((char *) SPIF_STR_STR(self), (char *) SPIF_STR_STR(other));
+    c = strcmp((char *) STR_TEXT(self), (char *) STR_TEXT(other));
     return SPIF_CMP_FROM_INT(c);
 }
 
@@ -455,7 +458,7 @@ spif_str_cmp_with_ptr(spif_str_t self, spif_charptr_t other)
     int c;
 
     SPIF_OBJ_COMP_CHECK_NULL(self, other);
-    c = strcmp((char *) SPIF_STR_STR(self), (char *) other);
+    c = strcmp((char *) STR_TEXT(self), (char *) other);
     return SPIF_CMP_FROM_INT(c);
 }
 
@@ -478,10 +481,10 @@ spif_str_find(spif_str_t self, spif_str_t other)
 
     ASSERT_RVAL(!SPIF_STR_ISNULL(self), ((spif_stridx_t) -1));
     REQUIRE_RVAL(!SPIF_STR_ISNULL(other), ((spif_stridx_t) -1));
-    tmp = strstr((const char *) SPIF_STR_STR(self),
-                 (const char *) SPIF_STR_STR(other));
+    tmp = strstr((const char *) STR_TEXT(self),
+                 (const char *) STR_TEXT(other));
     if (tmp) {
-        return (spif_stridx_t) ((spif_long_t) tmp - (spif_long_t) (SPIF_STR_STR(self)));
+        return (spif_stridx_t) ((spif_long_t) tmp - (spif_long_t) (STR_TEXT(self)));
     } else {
         return (spif_stridx_t) (self->len);
     }
@@ -494,10 +497,10 @@ spif_str_find_from_ptr(spif_str_t self, spif_charptr_t other)
 
     ASSERT_RVAL(!SPIF_STR_ISNULL(self), ((spif_stridx_t) -1));
     REQUIRE_RVAL((other != (spif_charptr_t) NULL), ((spif_stridx_t) -1));
-    tmp = strstr((const char *) SPIF_STR_STR(self),
+    tmp = strstr((const char *) STR_TEXT(self),
                  (const char *) other);
     if (tmp) {
-        return (spif_stridx_t) ((spif_long_t) tmp - (spif_long_t) (SPIF_STR_STR(self)));
+        return (spif_stridx_t) ((spif_long_t) tmp - (spif_long_t) (STR_TEXT(self)));
     } else {
         return (spif_stridx_t) (self->len);
     }
@@ -509,9 +512,9 @@ spif_str_index(spif_str_t self, spif_char_t c)
     char *tmp;
 
     ASSERT_RVAL(!SPIF_STR_ISNULL(self), ((spif_stridx_t) -1));
-    tmp = index((const char *) SPIF_STR_STR(self), c);
+    tmp = index((const char *) STR_TEXT(self), c);
     if (tmp) {
-        return (spif_stridx_t) ((spif_long_t) tmp - (spif_long_t) (SPIF_STR_STR(self)));
+        return (spif_stridx_t) ((spif_long_t) tmp - (spif_long_t) (STR_TEXT(self)));
     } else {
         return (spif_stridx_t) (self->len);
     }
@@ -523,7 +526,7 @@ spif_str_ncasecmp(spif_str_t self, spif_str_t other, spif_stridx_t cnt)
     int c;
 
     SPIF_OBJ_COMP_CHECK_NULL(self, other);
-    c = strncasecmp((char *) SPIF_STR_STR(self), (char *) SPIF_STR_STR(other), cnt);
+    c = strncasecmp((char *) STR_TEXT(self), (char *) STR_TEXT(other), cnt);
     return SPIF_CMP_FROM_INT(c);
 }
 
@@ -533,7 +536,7 @@ spif_str_ncasecmp_with_ptr(spif_str_t self, spif_charptr_t other, spif_stridx_t 
     int c;
 
     SPIF_OBJ_COMP_CHECK_NULL(self, other);
-    c = strncasecmp((char *) SPIF_STR_STR(self), (char *) other, cnt);
+    c = strncasecmp((char *) STR_TEXT(self), (char *) other, cnt);
     return SPIF_CMP_FROM_INT(c);
 }
 
@@ -543,7 +546,7 @@ spif_str_ncmp(spif_str_t self, spif_str_t other, spif_stridx_t cnt)
     int c;
 
     SPIF_OBJ_COMP_CHECK_NULL(self, other);
-    c = strncmp((char *) SPIF_STR_STR(self), (char *) SPIF_STR_STR(other), cnt);
+    c = strncmp((char *) STR_TEXT(self), (char *) STR_TEXT(other), cnt);
     return SPIF_CMP_FROM_INT(c);
 }
 
@@ -553,7 +556,7 @@ spif_str_ncmp_with_ptr(spif_str_t self, spif_charptr_t other, spif_stridx_t cnt)
     int c;
 
     SPIF_OBJ_COMP_CHECK_NULL(self, other);
-    c = strncmp((char *) SPIF_STR_STR(self), (char *) other, cnt);
+    c = strncmp((char *) STR_TEXT(self), (char *) other, cnt);
     return SPIF_CMP_FROM_INT(c);
 }
 
@@ -566,7 +569,7 @@ spif_str_prepend(spif_str_t self, spif_str_t other)
         self->size += other->size - 1;
         self->s = (spif_charptr_t) REALLOC(self->s, self->size);
         memmove(self->s + other->len, self->s, self->len + 1);
-        memcpy(self->s, SPIF_STR_STR(other), other->len);
+        memcpy(self->s, STR_TEXT(other), other->len);
         self->len += other->len;
     }
     return TRUE;
@@ -617,9 +620,9 @@ spif_str_rindex(spif_str_t self, spif_char_t c)
     char *tmp;
 
     ASSERT_RVAL(!SPIF_STR_ISNULL(self), ((spif_stridx_t) -1));
-    tmp = rindex((const char *) SPIF_STR_STR(self), c);
+    tmp = rindex((const char *) STR_TEXT(self), c);
     if (tmp) {
-        return (spif_stridx_t) ((spif_long_t) tmp - (spif_long_t) (SPIF_STR_STR(self)));
+        return (spif_stridx_t) ((spif_long_t) tmp - (spif_long_t) (STR_TEXT(self)));
     } else {
         return (spif_stridx_t) (self->len);
     }
@@ -758,7 +761,7 @@ spif_str_substr(spif_str_t self, spif_stridx_t idx, spif_stridx_t cnt)
     }
     REQUIRE_RVAL(cnt >= 0, (spif_str_t) NULL);
     UPPER_BOUND(cnt, self->len - idx);
-    return spif_str_new_from_buff(SPIF_STR_STR(self) + idx, cnt);
+    return spif_str_new_from_buff(STR_TEXT(self) + idx, cnt);
 }
 
 spif_charptr_t
@@ -779,7 +782,7 @@ spif_str_substr_to_ptr(spif_str_t self, spif_stridx_t idx, spif_stridx_t cnt)
     UPPER_BOUND(cnt, self->len - idx);
 
     newstr = (spif_charptr_t) MALLOC(cnt + 1);
-    memcpy(newstr, SPIF_STR_STR(self) + idx, cnt);
+    memcpy(newstr, STR_TEXT(self) + idx, cnt);
     newstr[cnt] = 0;
     return newstr;
 }
@@ -788,14 +791,14 @@ double
 spif_str_to_float(spif_str_t self)
 {
     ASSERT_RVAL(!SPIF_STR_ISNULL(self), (double) NAN);
-    return (double) (strtod((const char *)SPIF_STR_STR(self), (char **) NULL));
+    return (double) (strtod((const char *)STR_TEXT(self), (char **) NULL));
 }
 
 size_t
 spif_str_to_num(spif_str_t self, int base)
 {
     ASSERT_RVAL(!SPIF_STR_ISNULL(self), ((size_t) -1));
-    return (size_t) (strtoul((const char *) SPIF_STR_STR(self), (char **) NULL, base));
+    return (size_t) (strtoul((const char *) STR_TEXT(self), (char **) NULL, base));
 }
 
 spif_bool_t
